@@ -11,11 +11,13 @@ import (
 	"errors"
 	"fmt"
 	"io"
+	"net"
 	"os"
 	"sort"
 	"strings"
 	"sync"
 	"sync/atomic"
+	"syscall"
 	"time"
 
 	"github.com/hslam/rpc"
@@ -41,6 +43,18 @@ type pipeEnd struct {
 	once       sync.Once
 	onClose    func()
 	closeDelay time.Duration
+	lossMu     sync.Mutex
+	lossErr    error // what ReadMessage reports once the peer has gone (nil: io.EOF)
+}
+
+func (p *pipeEnd) setLoss(err error) { p.lossMu.Lock(); p.lossErr = err; p.lossMu.Unlock() }
+func (p *pipeEnd) loss() error {
+	p.lossMu.Lock()
+	defer p.lossMu.Unlock()
+	if p.lossErr != nil {
+		return p.lossErr
+	}
+	return io.EOF
 }
 
 func newPipe() (*pipeEnd, *pipeEnd) { return newPipeCap(256) }
@@ -65,7 +79,7 @@ func (p *pipeEnd) ReadMessage(buf []byte) ([]byte, error) {
 	case <-p.closed:
 		return nil, io.EOF
 	case <-p.peer.closed:
-		return nil, io.EOF
+		return nil, p.loss()
 	}
 }
 
@@ -161,6 +175,7 @@ type connInfo struct {
 	addr   string
 	conn   *rpc.Conn
 	closed int32
+	cend   *pipeEnd
 }
 
 type world struct {
@@ -203,7 +218,7 @@ func (w *world) dial(network, address, codec string) (*rpc.Conn, error) {
 	}
 	cend, send := newPipe()
 	id := len(w.conns)
-	ci := &connInfo{id: id, addr: address}
+	ci := &connInfo{id: id, addr: address, cend: cend}
 	cend.onClose = func() { atomic.StoreInt32(&ci.closed, 1) }
 	cend.closeDelay = w.slowClose
 	srv := rpc.NewServer()
@@ -839,6 +854,40 @@ func (r *poolRun) streamClose(k int) {
 	}
 }
 
+// the link to an address times out: every connection to it is cut, and what the client's reader
+// sees is not an orderly end but a read error (a net.Error whose Timeout() is true).  For the pool this
+// is a dead connection like any other: the next call that meets it fails with ErrShutdown, the
+// connection is retired, and the call after that dials again.  Only done while nothing is in flight on
+// those connections (calls in flight end with the read error itself, which the model does not carry).
+func (r *poolRun) linkTimeout(a string) {
+	busy := false
+	for _, h := range r.held {
+		if r.w.conns[h.conn].addr == a {
+			busy = true
+		}
+	}
+	for _, s := range r.streams {
+		if r.w.conns[s.conn].addr == a {
+			busy = true
+		}
+	}
+	for _, g := range r.grabs {
+		if g.addr == a {
+			busy = true
+		}
+	}
+	if !busy {
+		r.w.mu.Lock()
+		for _, c := range r.w.conns {
+			if c.addr == a && c.cend != nil {
+				c.cend.setLoss(&net.OpError{Op: "read", Net: "fake", Err: syscall.ETIMEDOUT})
+			}
+		}
+		r.w.mu.Unlock()
+	}
+	r.drop(a)
+}
+
 // kill the server of an address: the calls held on its connections end now
 func (r *poolRun) kill(a string) { r.cut(a, true) }
 
@@ -1161,7 +1210,11 @@ func (r *poolRun) script(i int) {
 		case x < 91:
 			if r.up(a) {
 				if e.Rng.Intn(3) == 0 || r.prop == "C04" {
-					r.drop(a)
+					if r.prop != "C04" && e.Rng.Intn(2) == 0 {
+						r.linkTimeout(a)
+					} else {
+						r.drop(a)
+					}
 				} else {
 					r.kill(a)
 				}
